@@ -239,8 +239,9 @@ def _provider_keyed_mapping(ctx, h, arg):
     defs = [n for n in own_nodes(h.node) if isinstance(n, ast.Assign)
             and any(isinstance(t, ast.Name) and t.id == m
                     for t in n.targets)]
-    if len(defs) != 1 or not (isinstance(defs[0].value, ast.Dict)
-                              and not defs[0].value.keys):
+    if len(defs) != 1 or not ((isinstance(defs[0].value, ast.Dict)
+                               and not defs[0].value.keys) or
+                              src(defs[0].value) == 'dict()'):
         return False
     stores = [n for n in own_nodes(h.node) if isinstance(n, ast.Subscript)
               and isinstance(n.ctx, ast.Store) and isinstance(
